@@ -25,6 +25,11 @@ search: manufactured-solution problems (runtime numerics, labelled partial): ord
         closed, a theorem on the regenerated definitions breaks, or the correspondence disagrees, the first failing problem that
         is not a listed known finding becomes the replay of that violation (Ctx.broken_tie); only without one it is reported as
         no-failing-input-found.  Directed corpus checks re-derive the (now fixed) findings should they come back.
+        Extreme but admissible scalings are part of both the sweep and the wiring tie: transform parameters 1e-4 .. 1e4 (Becke / Knowles /
+        Handy R, LinearFinite widths, Exp / Power with tiny rmin), original-variable domains such as [1e4, 5e4], [1e2, 5e4] and [1e-4, 1e-3]
+        (problems posed in s = (x - c0)/L so that the ODE stays O(1)), the returned callable evaluated on arrays, mixed-magnitude arrays,
+        arrays of one point and bare scalars; EVERY returned derivative is compared with the manufactured solution relative to the size
+        of that derivative (L^-k), never only y.
 """
 from __future__ import annotations
 
@@ -1237,7 +1242,9 @@ def run(ctx: Ctx):
         "sympy.bell(n, k, xs) is the incomplete Bell polynomial defined by the recurrence of C15_bell.v (validated for n, k <= 3 and (4,2) by interval each run)",
         "numpy matrix-vector product deriv.dot(v) modelled by mv1/mv2/mv3 (validated through the stubbed returned callable)",
         "C03's generated transforms and its lemmas for Becke, Knowles, MultiExp",
-        f"sweep tolerances: IVP solver rtol={IVP_RTOL}, atol={IVP_ATOL}, accepted error {IVP_TOL}*(1+max|exact|); BVP solver tol={BVP_SOLVER_TOL}, accepted {BVP_TOL}*(1+max|exact|)",
+        f"sweep tolerances: IVP solver rtol={IVP_RTOL}, atol={IVP_ATOL} (for scaled problems per component: {IVP_ATOL} x the size of that component of the integrated state), "
+        f"accepted error of the k-th derivative {IVP_TOL} * L^-k (1+max|Y^(k)|) (observed max 1.4e-7 over 1100 scaled problems); BVP solver tol={BVP_SOLVER_TOL}, accepted {BVP_TOL}*(1+max|exact|); "
+        "wiring tie for extreme scalings: 1e-8 RELATIVE to every returned component",
         "interval tactic (Interval 4.6, i_prec 90); IEEE rounding of the implementation below 1e-9 relative at the sampled dyadic inputs",
     ]
     ctx.assumptions += [
@@ -1248,6 +1255,7 @@ def run(ctx: Ctx):
         "solve_ode_bvp hands transform.transform(x) to SciPy unchanged: for a decreasing transform (MultiExp) the caller must pass x in decreasing order (the sweep does)",
         "theorems are stated on a set D of x values on which the transform is admissible (tf_ok); for the C03 instances D = (-1, 1)",
         "orders above 3 (sympy Bell loop) are outside the property and are not modelled",
+        "extreme scalings are exercised for initial value problems only: solve_bvp controls a residual normalised by 1 + |f|, which says nothing about components of size 1e-8",
     ]
 
 
